@@ -147,11 +147,42 @@ def rule_result_kind(model: Model):
         if not ok and isinstance(r.value, ast.Name):
             defs = [a for a in ast.walk(f.node) if isinstance(a, ast.Assign) and any(isinstance(t, ast.Name) and t.id == r.value.id for t in a.targets)]
             ok = bool(defs) and all(under_flag(a) or mentions(a.value) for a in defs)
+        if not ok:
+            # backward slice in the block of the return: the last binding of a name the value reads is conditional on the flag
+            par = parents.get(id(r))
+            blk = next((getattr(par, fld) for fld in ("body", "orelse", "finalbody") if isinstance(getattr(par, fld, None), list) and r in getattr(par, fld)), None)
+            if blk is not None:
+                ok = _slice_depends(blk, blk.index(r), {x.id for x in ast.walk(r.value) if isinstance(x, ast.Name)}, mentions, 4)
         obs.append(Ob("RESULT-SHAPE", f"_amen._amen_mm_python:RESULT-KIND:return{i}", OK if ok else VIOLATED, model.where(f, r), norm(r)[:80],
                       "returned value depends on the kind flag (3-axis cores for amen_mv, 4-axis cores for amen_mm)" if ok else
                       "this return does not depend on the kind flag: amen_mv (to_ttm=False) would receive the 4-axis cores of an operator - a TT matrix of shape "
                       "[(M_k, 1)] instead of a TT tensor of shape M"))
     return obs
+
+
+def _slice_depends(block, idx, names, mentions, depth):
+    """does a name of `names`, read at block[idx], get its last binding in this block under a test on the flag (or from an
+    expression that reads the flag, directly or through at most `depth` plain local bindings)?"""
+    names = set(names)
+    for j in range(idx - 1, -1, -1):
+        s = block[j]
+        stored = {x.id for x in ast.walk(s) if isinstance(x, ast.Name) and isinstance(x.ctx, ast.Store)} & names
+        if not stored:
+            continue
+        if isinstance(s, ast.If):
+            if mentions(s.test):
+                return True
+            return False        # conditional on something else: not decided here
+        if isinstance(s, ast.Assign):
+            if mentions(s.value):
+                return True
+            if depth <= 0:
+                return False
+            names = (names - stored) | {x.id for x in ast.walk(s.value) if isinstance(x, ast.Name) and isinstance(x.ctx, ast.Load)}
+            depth -= 1
+            continue
+        return False
+    return False
 
 
 def check(model: Model, tier: str):
